@@ -13,7 +13,7 @@ BIG = [4095, 4096, 4097]
 
 def pat(seed, a): return (a * 37 + (a >> 8) * 11 + seed) & 0xff
 
-ERRS = {'noflush': 'EBadIndex', 'nospace': 'ENoSpace', 'eof': 'EEof', 'split': 'ESplit', 'file': 'EFile', 'overflow': 'EOverflow',
+ERRS = {'intr': 'EBadIndex', 'noflush': 'EBadIndex', 'nospace': 'ENoSpace', 'eof': 'EEof', 'split': 'ESplit', 'file': 'EFile', 'overflow': 'EOverflow',
         'findregion': 'EFindRegion', 'guestmem': 'EGuestMem', 'writezero': 'EEof',
         'oob': 'EGuestMem', 'partial': 'EEof', 'io': 'EEof', 'misaligned': 'EBadIndex'}
 
@@ -77,13 +77,43 @@ def sync_of(op):
     async_write_from_at -> write_from_at, async_commit -> commit"""
     return (ASYNC[op[0]],) + tuple(op[1:]) if op[0] in ASYNC else op
 
+def script_steps(kind):
+    """source kind "s4096.100.e.i" -> ['4096', '100', 'e', 'i']"""
+    return [x for x in kind[1:].split('.') if x]
+
+class Flat:
+    """the flat view of a list of (address, length) segments without materialising it"""
+    def __init__(self, segs): self.segs = [(a, l) for a, l in segs if l > 0]; self.n = sum(l for a, l in self.segs)
+    def __len__(self): return self.n
+    def __iter__(self):
+        for a, l in self.segs:
+            for i in range(l): yield a + i
+    def __getitem__(self, k):
+        if isinstance(k, slice):
+            assert k.step is None
+            lo = 0 if k.start is None else max(0, min(k.start, self.n)); hi = self.n if k.stop is None else max(0, min(k.stop, self.n))
+            out = []; pos = 0
+            for a, l in self.segs:
+                s, e = max(lo, pos), min(hi, pos + l)
+                if e > s: out.append((a + s - pos, e - s))
+                pos += l
+            return Flat(out)
+        if k < 0: k += self.n
+        for a, l in self.segs:
+            if k < l: return a + k
+            k -= l
+        raise IndexError(k)
+
 class VSpec:
     """The flat-stream specification: every reader / writer is a list of remaining addresses (the
     concatenation of its segments) plus a consumed counter; memory is a dict over the pattern."""
-    def __init__(self, seed, descs, dirty0=()):
+    def __init__(self, seed, descs, dirty0=(), lazy=False):
         self.seed = seed; self.mem = {}; self.dirty = set(dirty0); self.dirty0 = set(dirty0); self.wlog = []
-        ra = [a + i for a, l, k in descs if k == 'r' for i in range(l)]
-        wa = [a + i for a, l, k in descs if k == 'w' for i in range(l)]
+        if lazy:        # chains of gigabytes: the flat view is kept as segments (same interface: len, slices, iteration)
+            ra = Flat([(a, l) for a, l, k in descs if k == 'r']); wa = Flat([(a, l) for a, l, k in descs if k == 'w'])
+        else:
+            ra = [a + i for a, l, k in descs if k == 'r' for i in range(l)]
+            wa = [a + i for a, l, k in descs if k == 'w' for i in range(l)]
         self.nseg = {'r': sum(1 for d in descs if d[2] == 'r'), 'w': sum(1 for d in descs if d[2] == 'w')}
         self.rd = [[ra, 0]]; self.wr = [[wa, 0]]
         self.written = set()
@@ -146,6 +176,29 @@ class VSpec:
             if len(data) > len(addrs): res = ('err', 'nospace')
             else:
                 self.put(addrs, data); h[0] = addrs[len(data):]; h[1] += len(data); res = ('ok', len(data), b'')
+        elif k == 'f' and op[3][0] in 'sS':      # write_from / write_from_at over a scripted source: one call, the first answer
+            count, steps, data = op[2], script_steps(op[3]), op[4]
+            st = steps[0] if steps else '0'
+            if count > len(addrs): res = ('err', 'nospace')
+            elif count == 0: res = ('ok', 0, b'')
+            elif st == 'e': res = ('err', 'file')
+            elif st == 'i': res = ('err', 'intr')
+            else:
+                n = min(count, int(st), len(data))
+                self.put(addrs, data[:n]); h[0] = addrs[n:]; h[1] += n; res = ('ok', n, b'')
+        elif k == 'A' and op[3][0] == 's':       # write_all_from over a scripted source: bytes placed by earlier rounds stay placed (and marked)
+            count, steps, data = op[2], script_steps(op[3]), op[4]
+            if count > len(addrs): res = ('err', 'nospace')
+            else:
+                rem = count; pos = 0; j = 0; res = None
+                while rem > 0:
+                    st = steps[j] if j < len(steps) else '0'; j += 1
+                    if st == 'i': continue
+                    if st == 'e': res = ('err', 'file'); break
+                    n = min(rem, int(st), len(data) - pos)
+                    if n == 0: res = ('err', 'writezero'); break
+                    self.put(h[0], data[pos:pos + n]); h[0] = h[0][n:]; h[1] += n; pos += n; rem -= n
+                if res is None: res = ('ok', 0, b'')
         elif k == 'f':
             count, kind, data = op[2], op[3], op[4]
             if count > len(addrs): res = ('err', 'nospace')
@@ -418,7 +471,7 @@ def eval_vcase(c, out):
         return p04, p17, None
     if out['init'] != 'ok':
         return [{'what': 'valid descriptor chain refused: %s' % out['init'], 'step': None}], [], None
-    spec = VSpec(c['seed'], c['descs'], c.get('dirty0', ()))
+    spec = VSpec(c['seed'], c['descs'], c.get('dirty0', ()), lazy=c.get('lazy', False))
     o0 = out['obs'][0]
     if (o0[1], o0[2], o0[3], o0[4]) != (len(spec.rd[0][0]), 0, len(spec.wr[0][0]), 0):
         p04.append({'what': 'initial available/consumed counters differ from the chain lengths', 'step': 0, 'got': o0[1:5]})
@@ -434,6 +487,17 @@ def eval_vcase(c, out):
             p04.append({'what': 'virtio counters after %s: available/consumed %s, expected %s' % (op[0], got[1:5], [e['a'], e['c'], e['a2'], e['c2']]),
                         'step': si, 'op': op_json(op), 'sig': {'transport': 'virtio', 'op': 'counters'}})
             break
+    if p04:
+        # results / counters deviate from the specification (C04's finding).  What needs no specification is still checked:
+        # every byte of guest memory that differs from the initial pattern lies in a page of the bitmap (round 6, seed C17f:
+        # an operation that fails after it has placed bytes must have marked them)
+        changed_pages = set((a + i) // PS for a, hx in out['mem'] for i in range(len(hx) // 2))
+        got_d = set(out['dirty'])
+        if not changed_pages <= got_d:
+            p17.append({'what': 'modified guest pages not marked dirty: %s (the run also deviates from the byte-stream specification at step %s: %s)'
+                                % (sorted(changed_pages - got_d)[:6], p04[0].get('step'), p04[0]['what'][:160]),
+                        'sig': {'kind': 'unmarked'}, 'initial_dirty_pages': sorted(set(c.get('dirty0', ()))),
+                        'first_modified_addresses': [a for a, hx in out['mem'] if a // PS in changed_pages - got_d][:4]})
     else:
         diff = {}
         for a, hx in out['mem']:
